@@ -369,7 +369,7 @@ func cmdRun(args []string) {
 	}
 	loadS := time.Since(t0).Seconds()
 	fmt.Fprintf(os.Stderr, "loaded %d packages in %.1fs\n", len(prog.AllPackages()), loadS)
-	base := Config{Unwind: *unwind, TimeoutMs: *timeout, Solver: *solver, MaxPaths: *maxPaths, MaxDepth: 400, Trace: *trace, ForkAll: *forkAll, MaxUnion: 64, Prune: *prune, JobTimeoutS: *jobTimeout, Witnesses: *witnesses}
+	base := Config{Unwind: *unwind, TimeoutMs: *timeout, Solver: *solver, MaxPaths: *maxPaths, MaxDepth: 1500, Trace: *trace, ForkAll: *forkAll, MaxUnion: 64, Prune: *prune, JobTimeoutS: *jobTimeout, Witnesses: *witnesses}
 	results := make([]HarnessResult, len(jobs))
 	var wg sync.WaitGroup
 	sem := make(chan struct{}, *par)
